@@ -27,11 +27,27 @@ _VF_SYMBOLIC = _os.environ.get('VF_SYMBOLIC') == '1'
 _VF_PATHS = {}
 def _vf_path(name):
   _VF_PATHS[name] = _VF_PATHS.get(name, 0) + 1
+def _vf_exc(name, e):
+  # an exception escaping an obligation is a failure (returns False); in a witness it is "no witness" (True)
+  if not _VF_SYMBOLIC:
+    import traceback as _tb; _tb.print_exc()
+  return name.startswith('wit_')
 if _VF_SYMBOLIC:
   _atexit.register(lambda: _sys.stderr.write('VF-PATHS %r\\n' % (_VF_PATHS,)))
 '''
 
 _CALL_RE = re.compile(r'when calling (.*?)(?: \(which returns (.*)\))?$')
+
+
+def fn(name: str, params: str, pre, body: str) -> str:
+  """Emits one contract function. `pre` is a string or list of strings; `body` is python
+  statements ending in `return <bool>`; exceptions escaping the body count as failure."""
+  import textwrap
+  pres = [pre] if isinstance(pre, str) else list(pre)
+  doc = '\n'.join(f'  pre: {p}' for p in pres)
+  body = textwrap.indent(textwrap.dedent(body).strip('\n'), '    ')
+  return (f'\ndef {name}({params}) -> bool:\n  """\n{doc}\n  post: _\n  """\n'
+          f'  _vf_path({name!r})\n  try:\n{body}\n  except Exception as _e:\n    return _vf_exc({name!r}, _e)\n')
 
 
 class Result:
@@ -136,7 +152,9 @@ def run_module(rep: common.Report, src: str, modname: str, timeout: float,
       else:
         r.detail = '; '.join(t for _, t in msgs)[:300]
   # ---- interpret -------------------------------------------------------------
+  table = rep.cov.setdefault('obligation_table', [])
   for name, r in sorted(results.items()):
+    table.append({'name': f'{modname}.{name}', 'status': r.status, 'paths': r.paths, 'cpu_s': round(r.cpu, 1)})
     rep.cov['evaluations'] += max(r.paths, 1)
     rep.solver('unsat' if r.status == 'confirmed' else ('sat' if r.status == 'refuted' else 'unknown'), r.cpu, 1)
     if r.kind == 'wit':
